@@ -201,6 +201,29 @@ func c03Gen(seed int64, tier string, batch, i int) c03Input {
 				in.Vars[k] = c03RandJSON(r, 2)
 			}
 		}
+	case c == 12 && r.Intn(2) == 0:
+		// random fragment graphs (cyclic or not): spreads in random order, through fields and inline fragments
+		in.Entry, in.Cat = "resolve-zoo", "fragment-graph"
+		nf := 2 + r.Intn(5)
+		var b strings.Builder
+		b.WriteString("{ name ...F0 self { ...F" + fmt.Sprint(r.Intn(nf)) + " } }\n")
+		for fi := 0; fi < nf; fi++ {
+			fmt.Fprintf(&b, "fragment F%d on Query {", fi)
+			for k, m := 0, 1+r.Intn(4); k < m; k++ {
+				switch r.Intn(5) {
+				case 0:
+					b.WriteString(" count")
+				case 1:
+					fmt.Fprintf(&b, " ... on Query { ...F%d }", r.Intn(nf))
+				case 2:
+					fmt.Fprintf(&b, " self { ...F%d name }", r.Intn(nf))
+				default:
+					fmt.Fprintf(&b, " ...F%d", r.Intn(nf))
+				}
+			}
+			b.WriteString(" }\n")
+		}
+		in.Text = b.String()
 	case c < 14:
 		in.Entry, in.Cat = "resolve-zoo", "zoo-valid-random-vars"
 		rq := zoo.Requests[r.Intn(len(zoo.Requests))]
